@@ -245,6 +245,9 @@ func (m *Mirror) HandleProposedHeader(ctx context.Context, ph tmconsensus.Propos
 		return tmconsensus.HandleProposedHeaderMissingProposerPubKey
 	}
 
+	// Whether we have already tried to backfill the previous height's commit from this header.
+	backfilled := false
+
 RESTART:
 	req := tmi.PHCheckRequest{
 		PH:   ph,
@@ -279,6 +282,14 @@ RESTART:
 		return tmconsensus.HandleProposedHeaderSignerUnrecognized
 	case tmi.PHCheckNextHeight:
 		// Special case: we make an additional request to the kernel if the PH is for the next height.
+		if backfilled {
+			// The header's previous commit proof did not move the voting height forward
+			// (for instance because we do not have the header it commits yet),
+			// so the header remains beyond the voting height.
+			// Trying again would spin forever.
+			return tmconsensus.HandleProposedHeaderRoundTooFarInFuture
+		}
+		backfilled = true
 		m.backfillCommitForNextHeightPE(ctx, req.PH)
 		goto RESTART // TODO: find a cleaner way to apply the proposed block after backfilling commit.
 	case tmi.PHCheckRoundTooOld:
